@@ -108,7 +108,10 @@ func ruleHandlerDemote() *Rule {
 					}
 					if op, _ := isMutexOp(callCommonOf(in)); (op == "Mutex.Unlock" || op == "Cond.Wait") && f.Parent == nil {
 						if _, isDefer := in.(*ssa.Defer); !isDefer && !a.AtRunDefers {
-							n := instrOrdinal(in, func(x ssa.Instruction) bool { o, _ := isMutexOp(callCommonOf(x)); return o == "Mutex.Unlock" || o == "Cond.Wait" })
+							n := instrOrdinal(in, func(x ssa.Instruction) bool {
+								o, _ := isMutexOp(callCommonOf(x))
+								return o == "Mutex.Unlock" || o == "Cond.Wait"
+							})
 							a.Observe(fmt.Sprintf("first release of the mutex (%s #%d) in %s", op, n, h), f, in, pre)
 						}
 					}
